@@ -861,6 +861,21 @@ func init() {
 				s := append([]byte{0x4d, byte(l - 3), byte((l - 3) >> 8)}, r.bytesN(l-3)...)
 				scripts = append(scripts, s)
 			}
+			if l == 0x10000 || (l == 0xffff && r.tier != "quick") {
+				// one OP_PUSHDATA4 push of exactly l (and, in the thorough tier, 2·l) bytes with separators among the
+				// data, followed by a stand-alone separator
+				for _, n := range []int{l, 2 * l} {
+					if n == 2*l && r.tier == "quick" {
+						continue
+					}
+					data := r.bytesN(n)
+					for j := 0; j < n; j += 97 {
+						data[j] = 0xab
+					}
+					s := append([]byte{0x4e, byte(n), byte(n >> 8), byte(n >> 16), byte(n >> 24)}, data...)
+					scripts = append(scripts, append(s, 0xab, 0x51))
+				}
+			}
 			for _, sc := range scripts {
 				for _, ht := range []uint32{1, 3, 0x82} {
 					args := []string{enc, "0", hx(sc), strconv.FormatUint(uint64(ht), 10)}
@@ -1170,6 +1185,45 @@ func init() {
 				r.Do("xkey.deser", []string{sx(s)}, "xkey-deser-leading-zero", true, "")
 			}
 		}
+	})
+	// C10: extended keys below the master with an all-zero parent fingerprint and index 0 (and the other
+	// combinations of zero / non-zero origin fields at depths 0, 1, 255)
+	regExtra("C10", func(r *Runner) {
+		for i, depth := range []int{1, 255, 0, 1, 2, 0} {
+			k := r.scalar(7 + i)
+			cc := r.bytesN(32)
+			fp := []string{"00000000", "00000000", "00000000", "00000001", "00000000", "deadbeef"}[i]
+			idx := []string{"0", "0", "0", "0", "2147483648", "5"}[i]
+			for _, priv := range []bool{true, false} {
+				key, ver := k, uint32(0x0488ADE4)
+				if !priv {
+					key, ver = ecc.GetPublicKeyCompressed(k), 0x0488B21E
+				}
+				args := []string{strconv.Itoa(b2i(priv)), hx(key), hx(cc), fp, strconv.Itoa(depth), idx, strconv.FormatUint(uint64(ver), 10)}
+				r.Do("xkey.ser", args, "xkey-ser-origin-fields", true, fmt.Sprintf("depth %d fingerprint %s index %s", depth, fp, idx))
+				fpb := unhxPlain(fp)
+				ix, _ := strconv.ParseUint(idx, 10, 32)
+				var s string
+				if priv {
+					s = bip32.SerializePrivate(key, cc, fpb, byte(depth), uint32(ix), ver)
+				} else {
+					s = bip32.SerializePublic(key, cc, fpb, byte(depth), uint32(ix), ver)
+				}
+				r.Do("xkey.deser", []string{sx(s)}, "xkey-deser-origin-fields", true, "")
+			}
+		}
+	})
+	// C10: an encryption that fails half-way (the random source runs dry, the intermediate code has the wrong
+	// magic bytes) followed by ordinary encryptions: the later answers are those of a fresh process
+	regExtra("C10", func(r *Runner) {
+		k := r.scalar(3)
+		good := "passphraseaB8feaLQDENqCgr4gKZpmf4VoaT6qdjJNJiv7fsKvjqavcJxvuR1hy25aTu9sX" // BIP38's example code
+		bad := "passphraseaB8feaLQDENqCgr4gKZpmf4VoaT6qdjJNJiv7fsKvjqavcJxvuR1hy25aTu9sY"
+		r.Do("bip38.ecenc", []string{hx(r.bytesN(5)), sx(good), "1"}, "bip38-ecenc-short-random-source", true, "")
+		r.Do("bip38.enc", []string{hx(k), sx("TestingOneTwoThree"), "0"}, "bip38-enc-after-a-failed-encryption", true, "")
+		r.Do("bip38.ecenc", []string{hx(r.bytesN(24)), sx(bad), "0"}, "bip38-ecenc-bad-code", true, "")
+		r.Do("bip38.ecenc", []string{hx(r.bytesN(24)), sx(good), "1"}, "bip38-ecenc-after-a-failed-encryption", true, "")
+		r.Do("bip38.enc", []string{hx(k), sx("Satoshi"), "1"}, "bip38-enc-after-a-failed-encryption", true, "")
 	})
 	// C10: WIF payloads whose last key byte looks like the compression flag (and its neighbours), every version edge
 	regExtra("C10", func(r *Runner) {
